@@ -4,9 +4,11 @@ from vf.ch import Ob
 FN = ["simple_ddl_parser/ddl_parser.py:parse_from_file (open and DDLParser replaced by recording fakes)",
       "simple_ddl_parser/parser.py:Parser.run dump branch (parse_data and dump_data_to_file replaced by recording fakes)",
       "simple_ddl_parser/cli.py:run_for_file, correct_extension"]
-ASSUMPTIONS = ["stubs: builtins open(), DDLParser, dump_data_to_file, parse_from_file (in cli) and pprint are recording fakes - what the OS and codecs do is outside",
+ASSUMPTIONS = ["plumbing lemmas (plumb / dump/run / cli/run_for_file / cli/main): builtins open(), DDLParser, dump_data_to_file, parse_from_file (in cli) and pprint are recording fakes",
+               "file-system lemmas (cli/fs/*, dump/dump_data_to_file): the real functions run natively on a fresh temporary tree, the solver chooses the case (names, modes, flags, invocation count); "
+               "CrossHair's side-effect wall is opened for writes below that temporary directory only by construction of the case",
                "replays of counterexamples use real temporary files"]
-OUTSIDE = ["decoding by arbitrary codecs, real file and directory creation, the sdp process (I/O and C-level code): not encodable",
+OUTSIDE = ["decoding by arbitrary codecs and the sdp process start-up (console-script shim): not encodable; file and directory creation is covered for the catalogued cases only",
            "run(dump=True) without file_path (per-table dump files)", "file names ending with a dot"]
 
 
@@ -18,8 +20,8 @@ def obligations(tier):
         Ob("C19.name/correct_extension", "misc", "c_ext", {}, t, FN, "file names of 1..7 arbitrary characters not ending with a dot", api=False),
         Ob("C19.cli/main", "misc", "c_main", {}, t, FN + ["simple_ddl_parser/cli.py:main (argparse, os.path and os.listdir replaced by fakes)"],
            "three directory entries, each any of 7 catalogued names (symbolic indices; with / without / double extensions); path is a file or a directory (symbolic)"),
-        Ob("C19.dump/dump_data_to_file", "misc", "c_dump_file", {}, t, ["simple_ddl_parser/output/core.py:dump_data_to_file (open replaced by a recording fake)"],
-           "data a flat list / a grouped dict / one table dict x 3 base names (symbolic)"),
+        Ob("C19.dump/dump_data_to_file", "misc", "c_dump_file", {}, t, ["simple_ddl_parser/output/core.py:dump_data_to_file (real file system: fresh temporary directory, native execution)"],
+           "data a flat list / a grouped dict / one table dict / an empty list x 4 base names (dot, blank, mixed case) x target directory present or not (all symbolic)"),
     ] + [
         Ob(f"C19.cli/fs/{'dir' if d else 'file'}/{'no-dump' if nd else 'dump'}", "misc", "c_cli_fs", {"VF_CLI_DIR": d, "VF_CLI_NODUMP": nd}, max(t, 300),
            ["simple_ddl_parser/cli.py:main, cli, run_for_file, correct_extension", "simple_ddl_parser/ddl_parser.py:parse_from_file", "simple_ddl_parser/parser.py:Parser.run (dump branch)",
